@@ -108,6 +108,59 @@ func forEachTLCRecord(path string, f func(raw []byte)) int {
 	return n
 }
 
+// parallelTLCRecords replays the records of the given TLC outputs on a fixed number of workers (record i goes to
+// worker i mod W, each worker keeps its own Result and processes its records in file order) and merges the
+// results in worker order, so that counts, samples and the candidate list are the same on every run.
+func parallelTLCRecords(paths []string, check func(res *Result, raw []byte)) *Result {
+	const W = 16
+	chans := make([]chan []byte, W)
+	results := make([]*Result, W)
+	done := make(chan struct{}, W)
+	for w := 0; w < W; w++ {
+		chans[w] = make(chan []byte, 256)
+		results[w] = newResult()
+		go func(w int) {
+			for raw := range chans[w] {
+				check(results[w], raw)
+			}
+			done <- struct{}{}
+		}(w)
+	}
+	i := 0
+	for _, path := range paths {
+		forEachTLCRecord(path, func(raw []byte) {
+			chans[i%W] <- raw
+			i++
+		})
+	}
+	for w := 0; w < W; w++ {
+		close(chans[w])
+	}
+	for w := 0; w < W; w++ {
+		<-done
+	}
+	res := newResult()
+	for _, r := range results {
+		res.Evaluations += r.Evaluations
+		for k := range r.distinct {
+			if _, ok := res.distinct[k]; !ok {
+				res.distinct[k] = struct{}{}
+				res.Nontrivial++
+			}
+		}
+		for _, smp := range r.Samples {
+			res.sample(smp)
+		}
+		n := r.NCandidates
+		for _, c := range r.Candidates {
+			res.addCandidate(c)
+		}
+		res.NCandidates += n - len(r.Candidates)
+		res.Drift = append(res.Drift, r.Drift...)
+	}
+	return res
+}
+
 func mustUnmarshal(raw []byte, v any) {
 	if err := json.Unmarshal(raw, v); err != nil {
 		die("unmarshal: %v: %.300s", err, raw)
